@@ -38,6 +38,7 @@ use std::collections::{HashMap, HashSet};
 
 use common::{json, CaseOut};
 
+use crate::agentdef::{host_spelling, send_handle, send_is_queued};
 use crate::run::{LinkEvent, Obs, TargetFrame};
 use crate::script::{FaultPlan, OpenAnswer, RetrySpec};
 
@@ -242,7 +243,7 @@ pub fn check(obs: &Obs, targets: &[(Option<String>, String, String)], plan: &Fau
     }
 
     // ---- per target ----
-    for (ti, (_host, node, lane)) in targets.iter().enumerate() {
+    for (ti, (host, node, lane)) in targets.iter().enumerate() {
         let Some(&k) = plan.target_keys.get(ti) else { continue };
         let h = &keys[k];
         let sent: Vec<(u64, u64, u32)> = obs.rec.sent.iter().filter(|s| s.1 as usize == ti).map(|s| (s.0, s.2, s.3)).collect();
@@ -253,8 +254,19 @@ pub fn check(obs: &Obs, targets: &[(Option<String>, String, String)], plan: &Fau
         out.add("agent-commands-forwarded", recv.len() as u64);
         let mut seen: HashMap<u64, usize> = HashMap::new();
         // (index in `sent`, channel) of the latest command forwarded, per sending path
-        let mut last_adhoc: Option<(usize, usize)> = None;
-        let mut last_reg: Option<(usize, usize)> = None;
+        let mut last_on_path: HashMap<Option<u32>, (usize, usize)> = HashMap::new();
+        let mut handles: HashSet<u32> = HashSet::new();
+        for (_, _, mode) in &sent {
+            if let Some(hd) = send_handle(*mode) {
+                handles.insert(hd);
+                if hd > 0 {
+                    out.count(&format!("agent-commands-sent-through-a-further-handle/{}", host_spelling(host, hd).1));
+                }
+            }
+        }
+        if handles.len() > 1 {
+            out.count("targets-sent-to-through-several-commander-handles");
+        }
         for f in &recv {
             match channel_key.get(&f.target) {
                 Some(ck) if *ck == k => {}
@@ -292,7 +304,7 @@ pub fn check(obs: &Obs, targets: &[(Option<String>, String, String)], plan: &Fau
                 continue;
             }
             seen.insert(v, f.target);
-            let last = if sent[i].2 == 0 { &mut last_adhoc } else { &mut last_reg };
+            let last = last_on_path.get(&send_handle(sent[i].2)).copied();
             if last.map_or(false, |(l, _)| i < l) {
                 let place = if last.map_or(false, |(_, c)| c == f.target) { "same-channel" } else { "across-reopen" };
                 out.violation(
@@ -302,10 +314,13 @@ pub fn check(obs: &Obs, targets: &[(Option<String>, String, String)], plan: &Fau
                     json!({"value": v, "target": ti}),
                 );
             }
-            *last = Some(match *last {
-                Some((l, c)) if l > i => (l, c),
-                _ => (i, f.target),
-            });
+            last_on_path.insert(
+                send_handle(sent[i].2),
+                match last {
+                    Some((l, c)) if l > i => (l, c),
+                    _ => (i, f.target),
+                },
+            );
         }
         if !(quiescent_ok && agent_alive_at_q) {
             continue;
@@ -318,7 +333,7 @@ pub fn check(obs: &Obs, targets: &[(Option<String>, String, String)], plan: &Fau
                 continue;
             }
             let later_exists = i + 1 < sent.len();
-            let kind = if *mode == 2 {
+            let kind = if send_is_queued(*mode) {
                 "queued"
             } else if !later_exists {
                 "last-overwritable"
@@ -331,7 +346,7 @@ pub fn check(obs: &Obs, targets: &[(Option<String>, String, String)], plan: &Fau
                     "C14",
                     format!("agent-command-fault/lost/{kind}/sent-when-channel={}", state_at(h, *t)),
                     "a command was not forwarded although no failure of its target's channel can account for it: the channel never failed (transient open errors within the retry budget and idle time-outs are not failures), or the command was sent after the runtime had noticed the last failure",
-                    json!({"value": v, "target": ti, "mode": mode, "sent_at": t, "clean_after": h.clean_after, "this_endpoint_ever_failed": h.faulted, "some_endpoint_failed": any_fault, "retry": format!("{:?}", plan.retry), "answers": format!("{:?}", plan.answers[k])}),
+                    json!({"value": v, "target": ti, "mode": mode, "handle": send_handle(*mode).map(|hd| format!("{hd} ({})", host_spelling(host, hd).1)), "handles_of_target": handles.len(), "sent_at": t, "clean_after": h.clean_after, "this_endpoint_ever_failed": h.faulted, "some_endpoint_failed": any_fault, "retry": format!("{:?}", plan.retry), "answers": format!("{:?}", plan.answers[k])}),
                 );
             } else {
                 out.count("commands-lost-with-failed-channel");
